@@ -210,8 +210,18 @@ class Scenario:
         self.now += ms
         exp, deliv = {}, {}
         due = sorted((v["node"], v["seq"], c) for c, v in self.clients.items() if v["alive"] and v["deadline"] < self.now)
+        gone = []
         for _, _, c in due:
-            self._end_effects(c, "timeout", exp, deliv)
+            if not self.clients[c]["deadline"] < self.now:
+                continue      # a will published by an earlier victim was delivered to this one: its allowance was re-armed
+            d1 = {}
+            self._end_effects(c, "timeout", exp, d1)
+            for r, x in d1.items():
+                deliv.setdefault(r, []).extend(x)
+                if self.clients[r]["alive"]:
+                    self.clients[r]["deadline"] = self.now + 2000 * self.clients[r].get("ka", 60)
+            gone.append(c)
+        due = gone
         for h, (d, _) in sorted(self.handshakes.items(), key=lambda e: e[1][1]):
             if d < self.now:
                 exp.setdefault(h, []).append("CLOSED")
@@ -220,7 +230,7 @@ class Scenario:
         if due:
             self.ack_receivers(deliv)
             self.gossip()
-        return [c for _, _, c in due]
+        return due
 
     def check_state(self):
         """at quiescence every node lists exactly the live sessions and their subscriptions"""
@@ -346,6 +356,7 @@ def add_c07_suites(c, samples):
     for _ in range(n):
         sc = gen_converged(rng, rng.choice([1, 2]), 1, rng.choice([10, 16]), {"pub": 7, "sub": 6, "connect": 3}, retain_p=0.65, clear_p=0.4)
         scs.append(sc)
+    scs = corpus(rng, ["clear-before-publish-arrives"]) + scs
     run_scenarios(c, "broker-retained-replay", scs, samples)
 
 
@@ -740,12 +751,108 @@ def gen_nodefail(rng, clean):
     return sc
 
 
+def _expect_after_nodefail(sc, failed):
+    """the failed peer's subscriptions are gone at once, its session records after the 3 s grace period"""
+    sc.ops.append("idle 3200")
+    sc.ops.append("gossip")
+    for n in range(sc.nn):
+        if n != failed:
+            ss = sorted(f"S,S{c_},{cv['cid']},{cv['mount']},{cv['node'] + 1},{sc._will(cv)}" for c_, cv in sc.clients.items() if cv["alive"])
+            us = sorted(f"U,S{c_},{cv['mount']}/{f},{cv['node'] + 1},{q}" for c_, cv in sc.clients.items() if cv["alive"] for f, q in cv["subs"].items())
+            reg = sorted("S" + c_ for c_, cv in sc.clients.items() if cv["alive"] and cv["node"] == n)
+            sc.ops.append(f"state {n}")
+            sc.exp[len(sc.ops) - 1] = ("[" + " ".join(ss) + "] [" + " ".join(us) + "] [] [" + " ".join(reg) + "]", "traces-of-failed-node")
+
+
+def _raw_connect(sc, node, mount, will=None, cid=None):
+    """CONNECT without delivering the resulting gossip"""
+    sc.k += 1
+    name = f"c{sc.k}"
+    cid = cid or f"id{sc.k}"
+    spec = "-" if not will else f"{will[0]}:{will[1]}:{will[2]}:{will[3]}"
+    sc.clients[name] = {"node": node, "mount": mount, "cid": cid, "will": will, "subs": {}, "alive": True, "ka": 60, "seq": sc.k}
+    sc.emit(f"connect {name} {node} {cid} {mount} 60 {spec}", {name: ["connack(0)"]}, "connect")
+    return name
+
+
+def gen_nodefail_partial_knowledge(rng, variant):
+    """node 1 fails while the survivors know only part of what it hosted:
+    sub-only    the subscription broadcast of a session reached node 0, its session record did not
+    takeover    the session on node 1 was displaced by a newer one on node 0 (record tombstoned) but not yet told
+    late-joiner node 2 learnt node 1's sessions (two, with wills) only from a full-state exchange"""
+    nn = 3 if variant == "late-joiner" else 2
+    sc = Scenario(rng, nn, 1)
+    m = sc.mounts[0]
+    watchers = []
+    for n in [0] + ([2] if nn == 3 else []):
+        w = sc.connect(node=n, mount=m)
+        sc.sub(w, [(rng.choice(["#", "w/#"]), rng.choice([0, 1]))])
+        watchers.append(w)
+    wills = {}
+    if variant == "sub-only":
+        x = _raw_connect(sc, 1, m)
+        sc.ops.append("losegossip 1 0")
+        sc.mid += 1
+        sc.clients[x]["subs"]["q/#"] = 1
+        sc.emit(f"sub {x} {sc.mid} q/#:1", {x: [f"suback({sc.mid};1)"]}, "subscribe")
+        sc.ops.append("bc 1 0")
+    elif variant == "takeover":
+        x = sc.connect(node=1, mount=m, cid="idX")
+        sc.sub(x, [("q/#", 1)])
+        y = sc.connect(node=0, mount=m, cid="idX")
+    else:
+        for k in range(rng.choice([2, 3])):
+            d = _raw_connect(sc, 1, m, will=(f"w/{k}", "6279", rng.choice([0, 1]), 0))
+            wills[d] = sc.clients[d]["will"]
+        sc.ops.append("bc 1 0")
+        sc.ops.append("losegossip 1 2")
+        sc.ops.append("sync 1 2")
+    exp = {}
+    for c_, cv in sc.clients.items():
+        if cv["alive"] and cv["node"] == 1:
+            exp[c_] = ["CLOSED"]
+    for d, (wt, wp, wq, wr) in wills.items():
+        for w in watchers:
+            for f, q in sc.clients[w]["subs"].items():
+                if mqtt_match(f.split("/"), wt.split("/")):
+                    exp.setdefault(w, []).append(pubstr(wt, wp, q, 0, 0))
+    for c_, cv in sc.clients.items():
+        if cv["node"] == 1:
+            cv["alive"] = False
+    sc.emit("nodefail 1", exp, "will-on-node-failure")
+    for w in watchers:
+        sc.ops.append(f"ackall {w}")
+    _expect_after_nodefail(sc, 1)
+    return sc
+
+
 def add_nodefail_suites(c, samples):
     n = 2 if c.tier == "quick" else 16
     scs = []
     for k in range(n):
         scs.append(gen_nodefail(c.rng, clean=(k % 2 == 1)))
+    for k in range(1 if c.tier == "quick" else 6):
+        for v in ("sub-only", "takeover", "late-joiner"):
+            scs.append(gen_nodefail_partial_knowledge(c.rng, v))
     run_scenarios(c, "node-failure", scs, samples)
+
+
+def gen_reallog_backlog(rng):
+    """a publisher far ahead of the scheduler when the consumer crosses the first truncation point: 1100 QoS 0 publishes
+    in one go from offset ~1900 (truncation is measured from the consumer's position, not from the end of the log)"""
+    sc = Scenario(rng, 1, 1, real_log=True)
+    p = sc.connect(node=0)
+    s1 = sc.connect(node=0)
+    sc.sub(s1, [("a/#", 0)])
+    k = 0
+    for n in (250, 250, 250, 250, 250, 250, 250, rng.choice([120, 150, 180])):
+        sc.burst(p, "a/b", 1, k, n)
+        k += n
+    sc.burst(p, "a/b", 0, k, 1100)
+    k += 1100
+    sc.burst(p, "a/b", 1, k, 40)
+    sc.check_state()
+    return sc
 
 
 def gen_reallog(rng, total, nn=1):
@@ -771,7 +878,7 @@ def gen_reallog(rng, total, nn=1):
 
 def add_reallog_suites(c, samples):
     # the first messages a node ever stores, and a history that crosses the first truncation point
-    scs = [gen_reallog(c.rng, 3), gen_reallog(c.rng, 2300)]
+    scs = [gen_reallog(c.rng, 3), gen_reallog(c.rng, 2300), gen_reallog_backlog(c.rng)]
     if c.tier != "quick":
         scs += [gen_reallog(c.rng, 520, nn=2), gen_reallog(c.rng, 4300), gen_reallog(c.rng, 3200, nn=2)]
     run_scenarios(c, "real-commit-log-long-history", scs, samples)
@@ -929,8 +1036,78 @@ def gen_abandoned_exchanges(rng):
     return sc
 
 
+def corpus_same_client_id_overlapping_qos2(rng):
+    """two tenants use the same client identifier and the same packet identifier for overlapping QoS 2 publishes: each
+    handshake belongs to its own session"""
+    sc = Scenario(rng, 1, 2)
+    a = sc.connect(node=0, mount="mp", cid="shared")
+    b = sc.connect(node=0, mount="mq", cid="shared")
+    wa = sc.connect(node=0, mount="mp")
+    wb = sc.connect(node=0, mount="mq")
+    sc.sub(wa, [("t", 0)])
+    sc.sub(wb, [("t", 0)])
+    sc.emit(f"pub {a} t 0a 2 0 0 5", {a: ["pubrec(5)"]}, "qos2-forwarded-early")
+    sc.emit(f"pub {b} t 0b 2 0 0 5", {b: ["pubrec(5)"]}, "other-tenant-disturbed")
+    sc.emit(f"rawack {b} pubrel 5", {b: ["pubcomp(5)"], wb: [pubstr("t", "0b", 0, 0, 0)]}, "other-tenant-disturbed")
+    sc.emit(f"rawack {a} pubrel 5", {a: ["pubcomp(5)"], wa: [pubstr("t", "0a", 0, 0, 0)]}, "other-tenant-disturbed")
+    for x in (a, b):
+        sc.emit(f"ping {x}", {x: ["pingresp"]}, "healthy-session-ended")
+    return sc
+
+
+def corpus_clear_before_publish_arrives(rng):
+    """node 1 clears a retained topic before node 0's (older) retained publish has reached it: once everything is
+    delivered the message is retained nowhere"""
+    sc = Scenario(rng, 2, 1)
+    p0 = sc.connect(node=0)
+    p1 = sc.connect(node=1)
+    sc.mid += 1
+    sc.ops.append(f"pub {p0} r/t 01 0 1 0 {sc.mid}")
+    sc.mid += 1
+    sc.ops.append(f"pub {p1} r/t - 0 1 0 {sc.mid}")
+    sc.ops.append(rng.choice(["bc 0 1", "bc 1 0"]))
+    sc.gossip()
+    sc.check_state()
+    late = sc.connect(node=rng.choice([0, 1]))
+    sc.sub(late, [("r/#", 0)])
+    return sc
+
+
+def corpus_ids_return_after_recipient_vanished(rng):
+    """recipients vanish while a delivery to them is unacknowledged (QoS 1; QoS 2 before PUBREC; QoS 2 after PUBREC); after
+    the expiry sweeps their identifiers are free again, so later deliveries to connected subscribers still go out. The
+    pool holds two identifiers and every kind of abandonment happens twice: a leak in any one path exhausts it."""
+    sc = Scenario(rng, 1, 1)
+    p = sc.connect(node=0)
+    sc.ops.append("setpool 0 1 2")
+    kinds = ["q1", "q1", "q2-no-pubrec", "q2-no-pubrec", "q2-pubrec", "q2-pubrec"]
+    rng.shuffle(kinds)
+    for k, kind in enumerate(kinds):
+        v = sc.connect(node=0)
+        q = 1 if kind == "q1" else 2
+        sc.sub(v, [("t", q)])
+        sc.mid += 1
+        sc.emit(f"pub {p} t 0{k} 1 0 0 {sc.mid}", {p: [f"puback({sc.mid})"], v: [pubstr("t", f"0{k}", q, 0, 0)]}, "delivery-with-free-identifiers")
+        if kind == "q2-pubrec":
+            sc.emit(f"ack {v} pubrec #1", {v: ["pubrel"]}, "qos2-phase")
+        sc.clients[v]["alive"] = False
+        sc.emit(f"{rng.choice(['drop', 'disconnect'])} {v}", {v: ["CLOSED"]}, "session-end")
+        sc.emit("expire 0", {}, "retransmission-to-ended-session")
+        sc.emit("expire 0", {}, "retransmission-to-ended-session")
+    s_ = sc.connect(node=0)
+    sc.sub(s_, [("t", 1)])
+    sc.mid += 1
+    sc.emit(f"pub {p} t 09 1 0 0 {sc.mid}", {p: [f"puback({sc.mid})"], s_: [pubstr("t", "09", 1, 0, 0)]}, "acked-publish-not-delivered")
+    sc.ops.append(f"ackall {s_}")
+    sc.ops.append("pool 0")
+    return sc
+
+
 def corpus(rng, names):
-    table = {"slow-qos2": corpus_slow_qos2_then_next, "first-message": corpus_first_message,
+    table = {"same-client-id-overlapping-qos2": corpus_same_client_id_overlapping_qos2,
+             "clear-before-publish-arrives": corpus_clear_before_publish_arrives,
+             "ids-return-after-recipient-vanished": corpus_ids_return_after_recipient_vanished,
+             "slow-qos2": corpus_slow_qos2_then_next, "first-message": corpus_first_message,
              "inbound-outbound-id": corpus_inbound_outbound_same_id, "wrong-type-ack": corpus_wrong_type_ack,
              "removal-overtakes-creation": corpus_removal_overtakes_creation, "takeover-out-of-order": corpus_takeover_seen_out_of_order,
              "same-client-id-two-tenants": corpus_same_client_id_two_tenants}
